@@ -142,7 +142,7 @@ class MagicNumberRule(MultiLanguageLintRule):  # thailint: ignore[srp]
         if not context.file_path:
             return False
 
-        file_path = Path(context.file_path)
+        file_path = path_in_project(context) or Path(context.file_path)
         return any(self._matches_pattern(file_path, pattern) for pattern in config.ignore)
 
     def _matches_pattern(self, file_path: Path, pattern: str) -> bool:
